@@ -107,7 +107,7 @@ fn rep(c: char, n: usize) -> String {
 
 const GENERAL_ALPHABET: &[char] = &[
     'a', 'b', 'Z', '0', '_', '.', ' ', '"', '{', '\\', '\u{7f}', '\u{80}', 'é', 'ß', 'ü', '\u{7ff}', '\u{800}', '€', '世', '界', '한', '\u{fffd}',
-    '\u{ffff}', '\u{0}', '\u{10000}', '😀', '\u{10ffff}',
+    '\u{ffff}', '\u{0}', '\u{10000}', '😀', '\u{10ffff}', '\u{feff}', '\u{200b}', '\u{a0}', '\n', '\r', '\t',
 ];
 /// code points whose UTF-8 equals Java's modified UTF-8: no NUL, nothing above U+FFFF
 const TEXT_ALPHABET: &[char] = &[
@@ -145,6 +145,14 @@ fn general_strings(rng: &mut Rng, cfg: &Cfg, max_units: usize, typical: &str) ->
     push("a".into());
     push("Grüße 世界".into());
     push("a\u{0}b".into());
+    // characters that "cleaning up" would take away: a byte order mark or other invisible character
+    // in front, blanks and line ends around the value
+    push("\u{feff}Steve".into());
+    push("\u{feff}".into());
+    push("\u{200b}x\u{feff}".into());
+    push(" padded ".into());
+    push("line\r\n".into());
+    push("\tx".into());
     push("😀🎮".into());
     push("\u{7f}\u{80}\u{7ff}\u{800}\u{ffff}".into());
     push("\u{10000}\u{10ffff}".into());
